@@ -34,6 +34,8 @@ def run(ck):
     for h in range(ck.n(30, 400)):
         n = rng.choice([2, 3])
         kind = rng.choice(["H", "H", "H", "lind-tensor", "lind-ops", "lind-deph", "lind-gauss"])
+        if h < 4:
+            kind = ("lind-tensor", "lind-ops", "lind-gauss", "lind-deph")[h]       # every run has each of them, whatever the seed
         cplx = kind == "H" and rng.random() < 0.5
         H = SY.rand_herm(numpy, rng, n, cplx=cplx)
         L = rng.choice([2, 4, 4, 6])
@@ -56,6 +58,13 @@ def run(ck):
                 Ks, rates = SY.lindblad_ops(numpy, rng, n)
                 sbi = SystemBathInteraction([Operator(data=K) for K in Ks], rates=tuple(rates))
                 LF = LindbladForm(ham, sbi, as_operators=(kind == "lind-ops"))
+                if kind == "lind-tensor" and h % 2 == 0:
+                    # the four-index form obtained from the operator form by convert_2_tensor(), called as the first access inside a basis context
+                    from quantarhei import eigenbasis_of
+                    LF = LindbladForm(ham, sbi, as_operators=True)
+                    with eigenbasis_of(ham):
+                        LF.convert_2_tensor()
+                    inp["tensor_obtained_by"] = "convert_2_tensor() inside eigenbasis_of(H)"
                 if kind == "lind-gauss":
                     gam = numpy.zeros((n, n))
                     for i in range(n):
@@ -206,7 +215,8 @@ def rwa_cases(ck, qr, numpy, scipy):
         H = SY.rand_herm(numpy, rng, n, ground=True)
         for i in range(1, n):
             H[i, i] += 2.0 + rng.randint(0, 4) / 8.0
-        nt, dt, nref = rng.randint(3, 6), rng.choice([0.25, 0.5]), rng.choice([1, 2])
+        # (fine internal steps: the truncation bound of the two runs must stay far below one, or the comparison decides nothing)
+        nt, dt, nref = rng.randint(3, 6), rng.choice([0.25, 0.5]), rng.choice([8, 16])
         ta = TimeAxis(0.0, nt, dt)
         rho0, _ = SY.rand_state(numpy, rng, n)
         inp = {"H": H.tolist(), "nt": nt, "dt": dt, "Nref": nref}
@@ -223,13 +233,21 @@ def rwa_cases(ck, qr, numpy, scipy):
         else:
             hr = Hamiltonian(data=H.copy())
             hr.set_rwa([0, 1])
-        pr = ReducedDensityMatrixPropagator(ta, hr)
+        if h % 3 == 2:
+            # the rotating-wave blocks are declared on the Hamiltonian only after the propagator was created from it
+            hr = Hamiltonian(data=H.copy())
+            pr = ReducedDensityMatrixPropagator(ta, hr)
+            hr.set_rwa([0, 1])
+            inp["set_rwa"] = "after the propagator was created"
+        else:
+            pr = ReducedDensityMatrixPropagator(ta, hr)
         ev = pr.propagate(ReducedDensityMatrix(data=rho0.copy()), Nref=nref)
         ev.convert_from_RWA(hr)
         d_rwa = numpy.array(ev.data)
         x = float(numpy.linalg.norm(2 * H * dt / nref, 2))
         bound = 2 * SY.trunc_bound(x, 4, (nt - 1) * nref, float(numpy.linalg.norm(rho0))) + 1e-9
         dev = float(numpy.abs(d_lab - d_rwa).max())
+        ck.resid("RWA vs laboratory frame: truncation bound of the comparison", bound)
         ck.case(("rwa", H.tobytes(), nt, dt, nref), nontrivial=True, kind="rwa")
         if dev > bound:
             ck.fail("rwa:equivalence", "RWA dynamics converted back differs from laboratory-frame dynamics beyond the bound", inp, dev, bound)
@@ -254,9 +272,12 @@ def rwa_cases(ck, qr, numpy, scipy):
                 p_lab = numpy.array(sv_lab.propagate(StateVector(data=psi0.copy())).data)
                 sv_r = StateVectorPropagator(ta, hr)
                 sv_r.setDtRefinement(nref)
-                pe = sv_r.propagate(StateVector(data=psi0.copy()))
+                psi_obj = StateVector(data=psi0.copy())
+                pe = sv_r.propagate(psi_obj)
                 pe.convert_from_RWA(hr)
                 p_rwa = numpy.array(pe.data)
+                # the caller goes on using his state-vector object for something else: the stored evolution is not affected
+                psi_obj.data = numpy.roll(psi0, 1) * (0.5 + 0.5j)
                 xs = float(numpy.linalg.norm(H * dt / nref, 2))
                 bsv = 2 * SY.trunc_bound(xs, 4, (nt - 1) * nref) + 1e-9
                 dsv = float(numpy.abs(p_lab - p_rwa).max())
